@@ -52,6 +52,11 @@ const (
 	lsnNIA        = 3
 	lsnNHost      = 3
 	lsnNScionPort = 2
+	// lsn.slowlink: token bucket on the loopback of the child's own network namespace.  A datagram that
+	// finds the bucket empty waits for its tokens (a few ms per datagram), and its software transmit
+	// timestamp is generated only when it leaves the queue: later than the 1 ms the listener waits for it.
+	slowRate  = "256kbit"
+	slowBurst = "1540"
 )
 
 type sysClock struct{}
@@ -67,7 +72,7 @@ func (sysClock) Sleep(d time.Duration)                            { time.Sleep(d
 
 // lsnParent starts the child that runs the listeners and returns the function
 // that waits for it and writes its cases.
-func lsnParent(a lib.Args, _ any) func() {
+func lsnParent(a lib.Args, slow bool) func() {
 	exe, err := os.Executable()
 	if err != nil {
 		panic(err)
@@ -76,8 +81,22 @@ func lsnParent(a lib.Args, _ any) func() {
 	if a.Replay != "" {
 		args = append(args, "-replay", a.Replay)
 	}
+	kind := "lsn.hist"
 	cmd := exec.Command(exe, args...)
 	cmd.Env = append(os.Environ(), lsnChildEnv+"=1", "USE_MOCK_KEYS=true")
+	if slow {
+		// the same process, but in a network namespace of its own whose loopback is rate-limited
+		kind = "lsn.slowlink"
+		setup := "ip link set lo up && tc qdisc add dev lo root tbf rate " + slowRate + " burst " + slowBurst + " latency 2s"
+		probe := exec.Command("unshare", "-n", "--", "sh", "-c", setup)
+		if out, err := probe.CombinedOutput(); err != nil {
+			fmt.Printf("NOTE c06: lsn.slowlink skipped: no network namespace with a rate-limited loopback here (%v: %s)\n",
+				err, strings.TrimSpace(strings.ReplaceAll(string(out), "\n", " | ")))
+			return func() {}
+		}
+		cmd = exec.Command("unshare", append([]string{"-n", "--", "sh", "-c", setup + ` && exec "$0" "$@"`, exe}, args...)...)
+		cmd.Env = append(os.Environ(), lsnChildEnv+"=slow", "USE_MOCK_KEYS=true")
+	}
 	stdout, err := cmd.StdoutPipe()
 	if err != nil {
 		panic(err)
@@ -160,7 +179,7 @@ func lsnParent(a lib.Args, _ any) func() {
 			if cur != nil {
 				w.Case(cur[0], cur[1]+",crash", cur[2], "0")
 			} else {
-				w.Case("lsn.hist", "crash", "[]", "0")
+				w.Case(kind, "crash", "[]", "0")
 			}
 		}
 		if stderrFile != nil {
